@@ -291,7 +291,13 @@ def c18_stop_while_reconnect_due(policy):
         flag_line = next(first + i for i, ln in enumerate(src) if ln.strip() == "self._stopping = True")
         studied = {N.stop.__code__: "stop", N._reconnect_peers.__code__: "reconnect", N._connect_to_peer.__code__: "connect"}
         w.s.tracing = False
-        base = explore.make_line_tracer(w.s, studied, call_boundaries=False)
+        # (stop() is a scheduling point up to the statements right after the flag is set; its wait loop is not)
+        def lines_of(fn):
+            s_, f_ = inspect.getsourcelines(fn)
+            return set(range(f_, f_ + len(s_)))
+        lf = {N.stop.__code__: set(range(first, flag_line + 4)), N._reconnect_peers.__code__: lines_of(N._reconnect_peers),
+              N._connect_to_peer.__code__: lines_of(N._connect_to_peer)}
+        base = explore.make_line_tracer(w.s, studied, call_boundaries=False, line_filter=lf)
         stop_code = N.stop.__code__
 
         def tracefn(frame, event, arg):
@@ -318,7 +324,12 @@ def c18_stop_while_reconnect_due(policy):
         w.s.emit("tick")
         w.spawn(_stopper(w, False, 3), name="stopper", role="stop")
         w.s.tracing = True
-        w.s.policy = policy
+
+        def two_threads(sched, enabled):
+            # the race is between the I/O loop and the stopping thread: the other threads run when neither of them can
+            pair = [t for t in enabled if getattr(t, "role", ("",))[0] in ("io", "stop")]
+            return policy(sched, pair) if pair else role_policy(sched, enabled)
+        w.s.policy = two_threads
         w.s.run()
         w.s.tracing = False
         w.s.policy = role_policy
